@@ -2,6 +2,7 @@
 //! imap-proto / tokio-imap code on generated inputs and prints canonical result lines.
 mod bodystruct;
 mod builder;
+mod client;
 mod crash;
 mod dump;
 mod genresp;
@@ -18,6 +19,8 @@ fn main() {
     }
     match args[1].as_str() {
         "tags" => tags::main(&args[2..]),
+        "client" => client::main(&args[2..]),
+        "framed" => client::framed_main(&args[2..]),
         "crash" => crash::parent(),
         "crash-child" => crash::child(),
         "crash-gen" => crash::gen(&args[2..]),
